@@ -865,9 +865,21 @@ func runServer(udp bool, peers, first []string) error {
 	}
 	rec := sim.StartRecorder(n, sim.Pacing{Kind: "fast"}, nil)
 	defer func() {
+		rec.Resume()
 		closeNode(n, bound) //nolint:errcheck
 		rec.WaitClosed(bound)
 	}()
+	// with an odd number of peers the application takes no events for one and a half idle timeouts in the middle of
+	// the run: the readers are held up meanwhile, but a peer that kept sending has been idle for no time at all
+	// when they go on - the deadline of a read starts when that read starts
+	if len(peers)%2 == 1 {
+		go func() {
+			time.Sleep(c14Idle)
+			rec.Pause()
+			time.Sleep(c14Idle * 3 / 2)
+			rec.Resume()
+		}()
+	}
 	type res struct {
 		label     string
 		kind      string
@@ -997,7 +1009,7 @@ func runServer(udp bool, peers, first []string) error {
 
 func TestC14Servers(t *testing.T) {
 	rec := evid.New(t, "C14", "TCP and UDP server endpoints with 2..5 generated peers that leave, fall silent (idle expiry after ~IdleTimeout with a timeout error) or keep sending every IdleTimeout/4 for 5 x IdleTimeout (must stay open; discarded as inconclusive when the sender itself stalled); every peer gets its own channel whatever its first bytes are (a frame, junk, the tail of a frame) and accepting continues; non-trivial = a silent and a keepalive peer together; distinct by hash of the peer list")
-	rec.Require("tcp-server", "udp-server", "silent+keepalive", "udp-peer-whose-first-datagram-is-no-frame")
+	rec.Require("tcp-server", "udp-server", "silent+keepalive", "udp-peer-whose-first-datagram-is-no-frame", "consumer-pauses-longer-than-the-idle-timeout")
 	evid.Check(t, rec, evid.N(8, 30), func(t *rapid.T) {
 		drawNodeInit(t)
 		type sub struct {
@@ -1046,6 +1058,9 @@ func TestC14Servers(t *testing.T) {
 					cls = append(cls, "udp-peer-whose-first-datagram-is-no-frame")
 					break
 				}
+			}
+			if len(s.peers)%2 == 1 {
+				cls = append(cls, "consumer-pauses-longer-than-the-idle-timeout")
 			}
 			rec.Case(hs && hk, evid.HashS(desc), cls...)
 			if rec.WantSample(cls[0]) {
